@@ -21,6 +21,9 @@ pub struct TextSpec {
     /// hp.obo starts directly with the first [Term] stanza (no header block, hence no data-version)
     #[serde(default)]
     pub no_obo_header: bool,
+    /// transitive gene file without some of the ancestor rows (see `Proj::TextTransitivePartial`)
+    #[serde(default)]
+    pub trans_partial: Option<u64>,
 }
 
 impl TextSpec {
@@ -34,10 +37,11 @@ impl TextSpec {
             ign_seed: r.next_u64(),
             transitive,
             no_obo_header: false,
+            trans_partial: None,
         }
     }
     pub fn canonical(transitive: bool) -> TextSpec {
-        TextSpec { stanzas: Order::canonical(), gene_rows: Order::canonical(), disease_rows: Order::canonical(), dup: Dup::none(), ign_permille: 0, ign_seed: 0, transitive, no_obo_header: false }
+        TextSpec { stanzas: Order::canonical(), gene_rows: Order::canonical(), disease_rows: Order::canonical(), dup: Dup::none(), ign_permille: 0, ign_seed: 0, transitive, no_obo_header: false, trans_partial: None }
     }
 }
 
@@ -159,7 +163,18 @@ pub fn render(f: &FactSet, spec: &TextSpec) -> TextFiles {
         let mut ts: std::collections::BTreeSet<u32> = g.terms.iter().copied().collect();
         if let Some(a) = &anc {
             for t in &g.terms {
-                ts.extend(a[t].iter().copied());
+                match spec.trans_partial {
+                    None => ts.extend(a[t].iter().copied()),
+                    Some(seed) => {
+                        for x in a[t].iter().copied() {
+                            if crate::facts::trans_row_kept(seed, g.id, x) {
+                                ts.insert(x);
+                            } else if !g.terms.contains(&x) {
+                                *out.injected.entry("transitive-ancestor-row-absent").or_default() += 1;
+                            }
+                        }
+                    }
+                }
             }
         }
         for t in ts {
